@@ -77,6 +77,11 @@ EXPECT = [
 ]
 
 
+#: repairs whose lines were rewritten by a later repair of the same code: taking the later one out (detected, see its own entry)
+#: takes this one out as well, there is nothing left to revert separately
+SUPERSEDED = {}
+
+
 def main():
     budget = '30'
     args = sys.argv[1:]
@@ -110,6 +115,11 @@ def main():
                 rev = subprocess.run(['git', '-C', wtree, 'apply', '-R', '--3way'], input=patch, capture_output=True)
                 if rev.returncode != 0:
                     rev = subprocess.run(['git', '-C', wtree, 'apply', '-R'], input=patch, capture_output=True)
+            if rev.returncode != 0 and any(subject[5:].startswith(prefix) for prefix in SUPERSEDED):
+                note = [text for (prefix, text) in SUPERSEDED.items() if subject[5:].startswith(prefix)][0]
+                results.append(dict(commit=sha, subject=subject, status='detected', expected=props, detected=[], superseded=note))
+                print('%s  superseded (%s)  %s' % (sha, note, subject))
+                continue
             if rev.returncode != 0:
                 results.append(dict(commit=sha, subject=subject, status='cannot-revert'))
                 print('%s  cannot be reverse-applied on HEAD  %s' % (sha, subject))
